@@ -66,3 +66,32 @@ Proof.
   exact (conj (cached_cold_stream st id a o) (cached_cold_map_tree st id a cols)).
 Qed.
 Print Assumptions C13_cached_cold.
+
+(* boxed nesting through map() (columns = true), ReplaceSource children with replacements included:
+   the nested and the flat ConcatSource have the same source() and their maps attribute every byte
+   alike and are None together.  `good`: a tree over Raw* / Original / SourceMapSource (consistent
+   map) / Concat / Replace with positions below 2^32; `small_final`: encoder domain (fields < 2^30) *)
+From RS Require Import Checkers.ChkTree.
+From RS Require Proofs.RStreamTree Proofs.LawMaps.
+Theorem C13_boxed_nesting_map : forall st a b c,
+  let F := SConcat [a; b; c] in
+  let R := SConcat [a; SConcat [b; c]] in
+  let L := SConcat [SConcat [a; b]; c] in
+  LawMaps.good F -> LawMaps.good R -> LawMaps.good L ->
+  LawMaps.small_final st F -> LawMaps.small_final st R -> LawMaps.small_final st L ->
+  attr_of_map (fst (get_map st R true)) (source R) true = attr_of_map (fst (get_map st F true)) (source F) true /\
+  attr_of_map (fst (get_map st L true)) (source L) true = attr_of_map (fst (get_map st F true)) (source F) true /\
+  is_none (fst (get_map st R true)) = is_none (fst (get_map st F true)) /\
+  is_none (fst (get_map st L true)) = is_none (fst (get_map st F true)).
+Proof. exact LawMaps.boxed_nesting_map. Qed.
+Print Assumptions C13_boxed_nesting_map.
+
+(* the stream-level nesting law for the same class (it was stated above for `dshape` trees only) *)
+Theorem C13_boxed_nesting_any : forall st a b c cols cl,
+  RStreamTree.rshape (SConcat [a; b; c]) = true -> treeA (SConcat [a; b; c]) = true ->
+  attr_of_stream (evs_of (stream st (SConcat [a; SConcat [b; c]]) (mkOpts cols false))) cl
+  = attr_of_stream (evs_of (stream st (SConcat [a; b; c]) (mkOpts cols false))) cl /\
+  attr_of_stream (evs_of (stream st (SConcat [SConcat [a; b]; c]) (mkOpts cols false))) cl
+  = attr_of_stream (evs_of (stream st (SConcat [a; b; c]) (mkOpts cols false))) cl.
+Proof. exact LawMaps.concat_nest_any. Qed.
+Print Assumptions C13_boxed_nesting_any.
